@@ -529,6 +529,9 @@ func sigOf(t tcase, msg string) string {
 }
 
 func run(c *h.Check) {
+	for _, sc := range concurrentWriterScenarios() {
+		c.Explore(sc, 2, 100000, false)
+	}
 	cs := cases(c.Thorough())
 	for i, t := range cs {
 		if !c.Mine(i) {
@@ -555,6 +558,11 @@ func run(c *h.Check) {
 }
 
 func replay(c *h.Check, rf *h.ReplayFile) []vrt.Violation {
+	for _, sc := range concurrentWriterScenarios() {
+		if sc.Name == rf.Scenario {
+			return h.ReplaySchedule(sc, rf)
+		}
+	}
 	var t tcase
 	json.Unmarshal(rf.Ops, &t)
 	_, msgs := runCase(t)
